@@ -72,3 +72,293 @@ Proof.
     all: match goal with H : rmif_loop ?s0 ?nd ?k ?l false = _ |- _ =>
            pose proof (rmif_loop_next nd k l s0 false) as Hn; rewrite H in Hn; cbn in Hn; lia end.
 Qed.
+
+Ltac refs_simpl :=
+  repeat first
+    [ rewrite elem_of_refs_add | rewrite elem_of_refs_del | rewrite elem_of_refs_del_opt ].
+
+Lemma refs_l1 s o : RefsOK s → RefsOK (step3 s (L1 o)).1.
+Proof.
+  intros [H1 H2 H3 H4 H5 H6 H7 H8 H9]. cbn [step3].
+  pose proof (next_mono (base s) o) as Hn.
+  destruct (step (base s) o) as [b r] eqn:Hs. cbn in *.
+  split; cbn; try done.
+  - intros h Hh. apply H6. lia.
+  - intros x G HG. destruct (H7 x G HG) as (A & B & C). split_and!; intros ? Hx;
+      [specialize (A _ Hx)|specialize (B _ Hx)|specialize (C _ Hx)]; lia.
+  - intros x a Ha. specialize (H8 _ _ Ha). lia.
+  - intros b0 cb Hb. specialize (H9 _ _ Hb). lia.
+Qed.
+
+Lemma refs_new_std_signal s ot : RefsOK s → below s ot → RefsOK (new_std_signal s ot).1.
+Proof.
+  intros [H1 H2 H3 H4 H5 H6 H7 H8 H9] Hb. unfold new_std_signal. destruct ot as [t|]; [|by split].
+  specialize (Hb t eq_refl). unfold alloc3. cbn.
+  pose proof (H6 (next (base s)) ltac:(lia)) as Hfresh.
+  split; cbn.
+  - intros t0 x. refs_simpl. rewrite H1. split.
+    + intros [[-> ->]|(G & HG & Ht)].
+      * eexists. by rewrite lookup_insert.
+      * exists G. rewrite lookup_insert_ne; [done|]. intros <-. congruence.
+    + intros (G & HG & Ht). destruct (decide (x = next (base s))) as [->|].
+      * rewrite lookup_insert in HG. simplify_eq. cbn in Ht. simplify_eq. by left.
+      * rewrite lookup_insert_ne in HG by done. right. eauto.
+  - intros u x. rewrite H2. split; intros (G & HG & Hu).
+    + exists G. rewrite lookup_insert_ne; [done|]. intros <-. congruence.
+    + destruct (decide (x = next (base s))) as [->|].
+      * rewrite lookup_insert in HG. by simplify_eq.
+      * rewrite lookup_insert_ne in HG by done. eauto.
+  - intros e x. rewrite H3. split; intros (G & HG & Hu).
+    + exists G. rewrite lookup_insert_ne; [done|]. intros <-. congruence.
+    + destruct (decide (x = next (base s))) as [->|].
+      * rewrite lookup_insert in HG. by simplify_eq.
+      * rewrite lookup_insert_ne in HG by done. eauto.
+  - done.
+  - done.
+  - intros h Hh. rewrite lookup_insert_ne by lia. apply H6. lia.
+  - intros x G HG. destruct (decide (x = next (base s))) as [->|].
+    + rewrite lookup_insert in HG. simplify_eq. cbn. split_and!; intros ? Hx; simplify_eq. lia.
+    + rewrite lookup_insert_ne in HG by done. destruct (H7 x G HG) as (A & B & C).
+      split_and!; intros ? Hx; [specialize (A _ Hx)|specialize (B _ Hx)|specialize (C _ Hx)]; lia.
+  - intros x a Ha. specialize (H8 _ _ Ha). lia.
+  - intros b0 cb Hb0. specialize (H9 _ _ Hb0). lia.
+Qed.
+
+Lemma refs_new_enum_signal s oe : RefsOK s → below s oe → RefsOK (new_enum_signal s oe).1.
+Proof.
+  intros [H1 H2 H3 H4 H5 H6 H7 H8 H9] Hb. unfold new_enum_signal. destruct oe as [e|]; [|by split].
+  specialize (Hb e eq_refl). unfold alloc3. cbn.
+  pose proof (H6 (next (base s)) ltac:(lia)) as Hfresh.
+  split; cbn.
+  - intros t x. rewrite H1. split; intros (G & HG & Hu).
+    + exists G. rewrite lookup_insert_ne; [done|]. intros <-. congruence.
+    + destruct (decide (x = next (base s))) as [->|].
+      * rewrite lookup_insert in HG. by simplify_eq.
+      * rewrite lookup_insert_ne in HG by done. eauto.
+  - intros u x. rewrite H2. split; intros (G & HG & Hu).
+    + exists G. rewrite lookup_insert_ne; [done|]. intros <-. congruence.
+    + destruct (decide (x = next (base s))) as [->|].
+      * rewrite lookup_insert in HG. by simplify_eq.
+      * rewrite lookup_insert_ne in HG by done. eauto.
+  - intros e0 x. refs_simpl. rewrite H3. split.
+    + intros [[-> ->]|(G & HG & Ht)].
+      * eexists. by rewrite lookup_insert.
+      * exists G. rewrite lookup_insert_ne; [done|]. intros <-. congruence.
+    + intros (G & HG & Ht). destruct (decide (x = next (base s))) as [->|].
+      * rewrite lookup_insert in HG. simplify_eq. cbn in Ht. simplify_eq. by left.
+      * rewrite lookup_insert_ne in HG by done. right. eauto.
+  - done.
+  - done.
+  - intros h Hh. rewrite lookup_insert_ne by lia. apply H6. lia.
+  - intros x G HG. destruct (decide (x = next (base s))) as [->|].
+    + rewrite lookup_insert in HG. simplify_eq. cbn. split_and!; intros ? Hx; simplify_eq. lia.
+    + rewrite lookup_insert_ne in HG by done. destruct (H7 x G HG) as (A & B & C).
+      split_and!; intros ? Hx; [specialize (A _ Hx)|specialize (B _ Hx)|specialize (C _ Hx)]; lia.
+  - intros x a Ha. specialize (H8 _ _ Ha). lia.
+  - intros b0 cb Hb0. specialize (H9 _ _ Hb0). lia.
+Qed.
+
+(* a signal changes one of its three pointers: the other two reference maps are untouched *)
+Lemma other_field_frame (sg : handle) (G G' : sig_rec) (sgs : gmap handle sig_rec) (f : sig_rec → option handle) h x :
+  sgs !! sg = Some G → f G' = f G →
+  ((∃ G0, <[sg:=G']> sgs !! x = Some G0 ∧ f G0 = Some h) ↔ ∃ G0, sgs !! x = Some G0 ∧ f G0 = Some h).
+Proof.
+  intros HG Hf. destruct (decide (x = sg)) as [->|]; [|by rewrite lookup_insert_ne].
+  rewrite lookup_insert. split; intros (G0 & ? & ?); simplify_eq; eexists; split; try done; congruence.
+Qed.
+
+Lemma refs_std_set_type s sg ot fits : RefsOK s → below s ot → RefsOK (std_set_type s sg ot fits).1.
+Proof.
+  intros Hr Hb. unfold std_set_type.
+  destruct (sigs s !! sg) as [G|] eqn:HG; [|done].
+  destruct (sg_kind G); try done. destruct ot as [t|]; [|done]. destruct fits; [|done].
+  specialize (Hb t eq_refl). destruct Hr as [H1 H2 H3 H4 H5 H6 H7 H8 H9]. cbn.
+  split; cbn; try done.
+  - intros t0 x. refs_simpl. rewrite H1. destruct (decide (x = sg)) as [->|].
+    + rewrite lookup_insert. split.
+      * intros [[-> _]|[(G0 & ? & Ht) Hn]]; [eauto|]. simplify_eq. exfalso. apply Hn. done.
+      * intros (G0 & ? & Ht). simplify_eq. cbn in Ht. simplify_eq. by left.
+    + rewrite lookup_insert_ne by done. split; [|by right; split; [|intros [_ ?]]].
+      intros [[_ ?]|[? _]]; done.
+  - intros u x. rewrite H2. symmetry. by eapply other_field_frame.
+  - intros e x. rewrite H3. symmetry. by eapply other_field_frame.
+  - intros h Hh. rewrite lookup_insert_ne; [by apply H6|]. intros <-. specialize (H6 _ Hh). congruence.
+  - intros x G0 HG0. destruct (decide (x = sg)) as [->|].
+    + rewrite lookup_insert in HG0. simplify_eq. cbn. destruct (H7 _ _ HG) as (A & B & C).
+      split_and!; [intros ? [= <-]; done|done|done].
+    + rewrite lookup_insert_ne in HG0 by done. by apply (H7 x).
+Qed.
+
+Lemma refs_enum_set_enum s sg oe fits : RefsOK s → below s oe → RefsOK (enum_set_enum s sg oe fits).1.
+Proof.
+  intros Hr Hb. unfold enum_set_enum.
+  destruct (sigs s !! sg) as [G|] eqn:HG; [|done].
+  destruct (sg_kind G); try done. destruct oe as [e|]; [|done]. destruct fits; [|done].
+  specialize (Hb e eq_refl). destruct Hr as [H1 H2 H3 H4 H5 H6 H7 H8 H9]. cbn.
+  split; cbn; try done.
+  - intros t x. rewrite H1. symmetry. by eapply other_field_frame.
+  - intros u x. rewrite H2. symmetry. by eapply other_field_frame.
+  - intros e0 x. refs_simpl. rewrite H3. destruct (decide (x = sg)) as [->|].
+    + rewrite lookup_insert. split.
+      * intros [[-> _]|[(G0 & ? & Ht) Hn]]; [eauto|]. simplify_eq. exfalso. apply Hn. done.
+      * intros (G0 & ? & Ht). simplify_eq. cbn in Ht. simplify_eq. by left.
+    + rewrite lookup_insert_ne by done. split; [|by right; split; [|intros [_ ?]]].
+      intros [[_ ?]|[? _]]; done.
+  - intros h Hh. rewrite lookup_insert_ne; [by apply H6|]. intros <-. specialize (H6 _ Hh). congruence.
+  - intros x G0 HG0. destruct (decide (x = sg)) as [->|].
+    + rewrite lookup_insert in HG0. simplify_eq. cbn. destruct (H7 _ _ HG) as (A & B & C).
+      split_and!; [done|done|intros ? [= <-]; done].
+    + rewrite lookup_insert_ne in HG0 by done. by apply (H7 x).
+Qed.
+
+Lemma refs_std_set_unit s sg ou : RefsOK s → below s ou → RefsOK (std_set_unit s sg ou).1.
+Proof.
+  intros Hr Hb. unfold std_set_unit.
+  destruct (sigs s !! sg) as [G|] eqn:HG; [|done].
+  destruct (sg_kind G); try done.
+  destruct Hr as [H1 H2 H3 H4 H5 H6 H7 H8 H9]. cbn.
+  split; cbn; try done.
+  - intros t x. rewrite H1. symmetry. by eapply other_field_frame.
+  - intros u x. destruct ou as [u1|]; refs_simpl; rewrite H2; (destruct (decide (x = sg)) as [->|];
+      [rewrite lookup_insert|rewrite lookup_insert_ne by done]).
+    + split.
+      * intros [[-> _]|[(G0 & ? & Ht) Hn]]; [eauto|]. simplify_eq. exfalso. apply Hn. done.
+      * intros (G0 & ? & Ht). simplify_eq. cbn in Ht. simplify_eq. by left.
+    + split; [|by right; split; [|intros [_ ?]]]. intros [[_ ?]|[? _]]; done.
+    + split.
+      * intros [(G0 & ? & Ht) Hn]. simplify_eq. exfalso. apply Hn. done.
+      * intros (G0 & ? & Ht). by simplify_eq.
+    + split; [by intros [? _]|]. intros ?. split; [done|]. by intros [_ ?].
+  - intros e x. rewrite H3. symmetry. by eapply other_field_frame.
+  - intros h Hh. rewrite lookup_insert_ne; [by apply H6|]. intros <-. specialize (H6 _ Hh). congruence.
+  - intros x G0 HG0. destruct (decide (x = sg)) as [->|].
+    + rewrite lookup_insert in HG0. simplify_eq. cbn. destruct (H7 _ _ HG) as (A & B & C).
+      split_and!; [done| |done]. intros u Hu. by apply (Hb u).
+    + rewrite lookup_insert_ne in HG0 by done. by apply (H7 x).
+Qed.
+
+Lemma refs_assign s ent oa verr : RefsOK s → below s oa → RefsOK (assign_attr s ent oa verr).1.
+Proof.
+  intros [H1 H2 H3 H4 H5 H6 H7 H8 H9] Hb. unfold assign_attr.
+  destruct oa as [a|]; [|by split]. destruct verr; [by split|]. specialize (Hb a eq_refl). cbn.
+  split; cbn; try done.
+  - intros a0 x. refs_simpl. rewrite H4. naive_solver.
+  - intros x a0. refs_simpl. intros [[-> ->]|Ha]; [done|by apply (H8 x)].
+Qed.
+
+Lemma refs_remove_assign s ent key : RefsOK s → RefsOK (remove_assign s ent key).1.
+Proof.
+  intros [H1 H2 H3 H4 H5 H6 H7 H8 H9]. unfold remove_assign. case_decide; [|by split]. cbn.
+  split; cbn; try done.
+  - intros a0 x. refs_simpl. rewrite H4. naive_solver.
+  - intros x a0. refs_simpl. intros [Ha _]. by apply (H8 x).
+Qed.
+
+Lemma elem_of_refs_del_list (l : list handle) (ent : handle) m a x :
+  x ∈ refs_of (foldr (λ a acc, del_ref a ent acc) m l) a ↔ x ∈ refs_of m a ∧ ¬ (a ∈ l ∧ x = ent).
+Proof.
+  induction l as [|b l IH]; cbn.
+  - split; [intros ?; split; [done|]; by intros [?%not_elem_of_nil _]|by intros [? _]].
+  - rewrite elem_of_refs_del, IH. rewrite elem_of_cons. naive_solver.
+Qed.
+
+Lemma refs_remove_all_assign s ent : RefsOK s → RefsOK (remove_all_assign s ent).1.
+Proof.
+  intros [H1 H2 H3 H4 H5 H6 H7 H8 H9]. unfold remove_all_assign. cbn.
+  split; cbn; try done.
+  - intros a x. rewrite elem_of_refs_del_list, elem_of_elements, H4.
+    unfold refs_of at 3. destruct (decide (x = ent)) as [->|].
+    + rewrite lookup_insert. cbn. split; [naive_solver|set_solver].
+    + rewrite lookup_insert_ne by done. fold (refs_of (assigns s) x). naive_solver.
+  - intros x a. unfold refs_of. destruct (decide (x = ent)) as [->|].
+    + rewrite lookup_insert. cbn. set_solver.
+    + rewrite lookup_insert_ne by done. apply (H8 x).
+Qed.
+
+Lemma refs_bus_set_builder s b ocb : RefsOK s → below s ocb → RefsOK (bus_set_builder s b ocb).1.
+Proof.
+  intros [H1 H2 H3 H4 H5 H6 H7 H8 H9] Hb. unfold bus_set_builder.
+  destruct ocb as [cb|]; cbn.
+  - specialize (Hb cb eq_refl). split; cbn; try done.
+    + intros cb0 b0. refs_simpl. rewrite H5. destruct (decide (b0 = b)) as [->|].
+      * rewrite lookup_insert. split; [intros [[-> _]|[Hx Hn]]; [done|]; exfalso; apply Hn; done|].
+        intros [= <-]. by left.
+      * rewrite lookup_insert_ne by done. split; [intros [[_ ?]|[? _]]; done|]. intros ?. right. split; [done|]. by intros [_ ?].
+    + intros b0 cb0 Hl. destruct (decide (b0 = b)) as [->|].
+      * rewrite lookup_insert in Hl. by simplify_eq.
+      * rewrite lookup_insert_ne in Hl by done. by apply (H9 b0).
+  - split; cbn; try done.
+    + intros cb0 b0. refs_simpl. rewrite H5. destruct (decide (b0 = b)) as [->|].
+      * rewrite lookup_delete. split; [|done]. intros [Hx Hn]. exfalso. apply Hn. done.
+      * rewrite lookup_delete_ne by done. split; [by intros [? _]|]. intros ?. split; [done|]. by intros [_ ?].
+    + intros b0 cb0 Hl. destruct (decide (b0 = b)) as [->|]; [by rewrite lookup_delete in Hl|].
+      rewrite lookup_delete_ne in Hl by done. by apply (H9 b0).
+Qed.
+
+Theorem inv3_init : Inv3 init3.
+Proof. split; [apply Proofs_New.inv_init|apply refs_init]. Qed.
+
+Lemma base_frame s o : match o with L1 _ => False | _ => True end → base (step3 s o).1 = base s ∨
+  base (step3 s o).1 = base s <| next ::= Pos.succ |>.
+Proof.
+  destruct o; try done; intros _; cbn [step3];
+    unfold new_std_signal, new_enum_signal, std_set_type, std_set_unit, enum_set_enum, assign_attr,
+      remove_assign, remove_all_assign, bus_set_builder, alloc3.
+  all: repeat case_match; cbn; auto.
+Qed.
+
+Theorem inv3_step s o : Inv3 s → op_ok3 s o → Inv3 (step3 s o).1.
+Proof.
+  intros [Hinv Hrefs] Hok. destruct o as [o| | | | | | | | |].
+  - split; [|by apply refs_l1]. cbn [step3]. pose proof (inv_step (base s) o Hinv Hok) as Hi.
+    by destruct (step (base s) o).
+  - split; [|by apply refs_new_std_signal].
+    destruct (base_frame s (NewStdSignal ot) I) as [->| ->]; [done|]. by apply (Proofs_New.inv_new_other (base s)).
+  - split; [|by apply refs_new_enum_signal].
+    destruct (base_frame s (NewEnumSignal oe) I) as [->| ->]; [done|]. by apply (Proofs_New.inv_new_other (base s)).
+  - split; [|by apply refs_std_set_type].
+    destruct (base_frame s (StdSetType sg ot fits) I) as [->| ->]; [done|]. by apply (Proofs_New.inv_new_other (base s)).
+  - split; [|by apply refs_std_set_unit].
+    destruct (base_frame s (StdSetUnit sg ou) I) as [->| ->]; [done|]. by apply (Proofs_New.inv_new_other (base s)).
+  - split; [|by apply refs_enum_set_enum].
+    destruct (base_frame s (EnumSetEnum sg oe fits) I) as [->| ->]; [done|]. by apply (Proofs_New.inv_new_other (base s)).
+  - split; [|by apply refs_assign].
+    destruct (base_frame s (Assign ent oa verr) I) as [->| ->]; [done|]. by apply (Proofs_New.inv_new_other (base s)).
+  - split; [|by apply refs_remove_assign].
+    destruct (base_frame s (RemoveAssign ent key) I) as [->| ->]; [done|]. by apply (Proofs_New.inv_new_other (base s)).
+  - split; [|by apply refs_remove_all_assign].
+    destruct (base_frame s (RemoveAllAssign ent) I) as [->| ->]; [done|]. by apply (Proofs_New.inv_new_other (base s)).
+  - split; [|by apply refs_bus_set_builder].
+    destruct (base_frame s (BusSetBuilder b ocb) I) as [->| ->]; [done|]. by apply (Proofs_New.inv_new_other (base s)).
+Qed.
+
+Theorem inv3_reachable s : Reach3 s → Inv3 s.
+Proof. induction 1; [apply inv3_init|by apply inv3_step]. Qed.
+
+Theorem references_exact s : Reach3 s → ReferencesExact s.
+Proof.
+  intros [_ [H1 H2 H3 H4 H5 H6 H7 H8 H9]]%inv3_reachable. unfold ReferencesExact. split_and!; try done.
+  all: apply stdpp.sets.set_eq; intros x; (split; [|by intros ?%not_elem_of_empty]).
+  - intros (G & HG & Ht)%H1. destruct (H7 _ _ HG) as (A & _). specialize (A _ Ht). lia.
+  - intros (G & HG & Ht)%H2. destruct (H7 _ _ HG) as (_ & A & _). specialize (A _ Ht). lia.
+  - intros (G & HG & Ht)%H3. destruct (H7 _ _ HG) as (_ & _ & A). specialize (A _ Ht). lia.
+  - intros Hx%H4. specialize (H8 _ _ Hx). lia.
+  - intros Hx%H5. specialize (H9 _ _ Hx). lia.
+Qed.
+
+(* C06 for layer 3: a refused operation changes nothing *)
+Theorem error_is_noop3 s o : Inv3 s → is_err (step3 s o).2 = true → (step3 s o).1 = s.
+Proof.
+  intros [Hinv _]. destruct o as [o| | | | | | | | |]; cbn [step3].
+  - pose proof (error_is_noop (base s) o Hinv) as Hn. destruct (step (base s) o) as [b r]. cbn in *.
+    intros He. rewrite (Hn He). by destruct s.
+  - unfold new_std_signal, alloc3. by repeat case_match.
+  - unfold new_enum_signal, alloc3. by repeat case_match.
+  - unfold std_set_type. by repeat case_match.
+  - unfold std_set_unit. by repeat case_match.
+  - unfold enum_set_enum. by repeat case_match.
+  - unfold assign_attr. by repeat case_match.
+  - unfold remove_assign. by repeat case_match.
+  - unfold remove_all_assign. done.
+  - unfold bus_set_builder. by repeat case_match.
+Qed.
